@@ -92,7 +92,7 @@ func propC04(c *Ctx) {
 	// characters that tempt a "clean-up" at the edges of the input: byte order mark, NUL, line and paragraph
 	// separators, U+0100 (first character above the direct table), the last BMP characters
 	for _, k := range kinds {
-		for _, x := range []rune{0xfeff, 0, 0x2028, 0x2029, 0x100, 0xff, 0xfffe, 0xffff, 0x10000, 0x85, 0xa0} {
+		for _, x := range []rune{0xfeff, 0, 0x2028, 0x2029, 0x100, 0xff, 0xfffe, 0xffff, 0x10000, 0x85, 0xa0, 0x1000a, 0x2000d, 0x10000a, 0x10ffff} {
 			for _, in := range [][]rune{{x}, {x, 'a'}, {'a', x}, {x, 'a', x}, {x, x}, {' ', x, ' '}, {x, '1', '.', '5'}, {'"', x, '"'}} {
 				runC04Case(c, k, in)
 			}
@@ -136,7 +136,7 @@ func propC04(c *Ctx) {
 }
 
 func replayTok(c *Ctx, op string) {
-	if replayEntry(c, op) || replayTokC(c, op) {
+	if replayEntry(c, op) || replayTokC(c, op) || replayErrPos(c, op) {
 		return
 	}
 	if strings.HasPrefix(op, "hist ") || strings.HasPrefix(op, "tokh ") {
@@ -276,6 +276,7 @@ func propC12Retention(c *Ctx) {
 func propC12(c *Ctx) {
 	propScaleTokenizers(c, "C12")
 	propC12Retention(c)
+	propErrorPositions(c)
 	nCfg := 300
 	if c.Thorough {
 		nCfg = 6000
@@ -297,6 +298,12 @@ func propC12(c *Ctx) {
 		kk := k
 		enumStrings(alpha, maxL, func(s []rune) {
 			runC12Case(c, kk, someOpts, append([]rune(nil), s...))
+		})
+	}
+	for _, k := range kinds {
+		kk := k
+		enumStrings([]rune{'a', ' ', 0x1000a, 0x2000d, '\n', ','}, 3, func(s []rune) {
+			runC12Case(c, kk, []int{0, 127}, append(append([]rune(nil), s...), 'b', ' ', 'c'))
 		})
 	}
 	c.Notes = append(c.Notes, fmt.Sprintf("exhaustive: all strings of length <= %d over a 13-character alphabet with LF/CR x 7 option sets x 4 tokenizers; random multi-line inputs up to length 50 x all 128 option sets", maxL))
@@ -365,6 +372,30 @@ func runC15Case(c *Ctx, kind string, optSets []int, input []rune) {
 		if bad != "" {
 			c.fail(Failure{Kind: "oracle", Op: op, Impl: impl, Note: bad + " (option-free stream: " + showTks(raw) + ")"})
 			continue
+		}
+		if c.Evals%8 == 5 {
+			// the same scanner object handed over again after a rewind (also after an iteration that was abandoned right
+			// after a presence query): the stream is the one of a first pass
+			var again, third []tk
+			st2 := safeCallT(5*time.Second, func() string {
+				t2 := newTokenizer(kind)
+				setOpts(t2, o)
+				sc := newScanner(string(input))
+				t2.TokenizeStream(sc)
+				sc.Reset()
+				again = conv(t2.TokenizeStream(sc))
+				sc.Reset()
+				t2.SetReader(sc)
+				t2.HasNextToken()
+				sc.Reset()
+				third = conv(t2.TokenizeStream(sc))
+				return ""
+			})
+			if st2 == "" && (!eqTks(again, ts) || !eqTks(third, ts)) {
+				c.fail(Failure{Kind: "oracle", Op: op, Impl: showTks(again) + " / " + showTks(third), Spec: showTks(ts),
+					Note: "TokenizeStream on the same scanner object after Reset (second pass / pass after an abandoned presence query) gives " + showTks(again) + " / " + showTks(third) + ", the first pass gave " + showTks(ts)})
+				continue
+			}
 		}
 		if kind == "h" || kind == "H" {
 			continue // a state written by the user: no model of it, the direct oracles decide
